@@ -245,6 +245,16 @@ func ToBoolean(ctx *expr.Context, input system.Collection, args ...expr.Expressi
 	return system.Collection{}, nil
 }
 
+// Strings convertible to Date, DateTime and Time: the partial formats of
+// YYYY-MM-DDThh:mm:ss.fff(+|-)hh:mm. The literal parsers in package system also strip
+// the '@' / '@T' literal markers and inherit time.Parse's leniency (one-digit hours,
+// ',' as fraction separator, offset minutes of 60), none of which is a valid string form.
+var (
+	dateStringRegexp     = regexp.MustCompile(`^\d{4}(-\d{2}(-\d{2})?)?$`)
+	timeStringRegexp     = regexp.MustCompile(`^\d{2}(:\d{2}(:\d{2}(\.\d+)?)?)?$`)
+	dateTimeStringRegexp = regexp.MustCompile(`^\d{4}(-\d{2}(-\d{2})?)?T(\d{2}(:\d{2}(:\d{2}(\.\d+)?)?)?(Z|(\+|-)([01]\d|2[0-3]):[0-5]\d)?)?$`)
+)
+
 // ToDate converts the input to a Date
 // FHIRPath docs here: https://hl7.org/fhirpath/N1/#todate-date
 func ToDate(ctx *expr.Context, input system.Collection, args ...expr.Expression) (system.Collection, error) {
@@ -280,6 +290,9 @@ func ToDate(ctx *expr.Context, input system.Collection, args ...expr.Expression)
 		}
 		return system.Collection{result}, nil
 	case system.String:
+		if !dateStringRegexp.MatchString(string(value)) {
+			return system.Collection{}, nil
+		}
 		result, err := system.ParseDate(string(value))
 		if err != nil {
 			return system.Collection{}, nil
@@ -315,6 +328,17 @@ func ToDateTime(ctx *expr.Context, input system.Collection, args ...expr.Express
 	case system.DateTime:
 		return system.Collection{value}, nil
 	case system.String:
+		if dateStringRegexp.MatchString(string(value)) {
+			// a date-only string is a DateTime of that precision
+			date, err := system.ParseDate(string(value))
+			if err != nil {
+				return system.Collection{}, nil
+			}
+			return system.Collection{date.ToDateTime()}, nil
+		}
+		if !dateTimeStringRegexp.MatchString(string(value)) {
+			return system.Collection{}, nil
+		}
 		result, err := system.ParseDateTime(string(value))
 		if err != nil {
 			return system.Collection{}, nil
@@ -595,7 +619,10 @@ func ToTime(ctx *expr.Context, input system.Collection, args ...expr.Expression)
 	case system.Time:
 		return system.Collection{value}, nil
 	case system.String:
-		result, err := system.ParseTime(fmt.Sprintf("%v", value))
+		if !timeStringRegexp.MatchString(string(value)) {
+			return system.Collection{}, nil
+		}
+		result, err := system.ParseTime(string(value))
 		if err != nil {
 			return system.Collection{}, nil
 		}
